@@ -45,6 +45,33 @@ def free_vars(t, acc=None, seen=None):
     return acc
 
 
+import re as _re
+_DEFSYM = _re.compile(r'^(k?sqrt!|SQRT\d|unwound!|quot!|kasin!|ksin!)')
+
+
+def needed_defs(defs, seeds):
+    """Definitional constraints (conservative extensions: sqrt / algebraic-constant symbols)
+    are only needed when their defined symbol occurs in the seed formulas, transitively."""
+    need = set()
+    for f in seeds:
+        need |= {str(v) for v in free_vars(f).values()}
+    info = []
+    for d in defs:
+        vs = {str(v) for v in free_vars(d).values()}
+        info.append((d, vs, {v for v in vs if _DEFSYM.match(v)}))
+    keep = [False] * len(info)
+    changed = True
+    while changed:
+        changed = False
+        for i, (d, vs, dsyms) in enumerate(info):
+            if not keep[i] and (not dsyms or dsyms & need):
+                keep[i] = True
+                if vs - need:
+                    need |= vs
+                changed = True
+    return [d for (d, _, _), k in zip(info, keep) if k]
+
+
 def cone(goal_terms, formulas):
     """Formulas connected (transitively, via shared symbols) to the goal terms."""
     vs = set()
@@ -64,23 +91,63 @@ def cone(goal_terms, formulas):
     return [f for (f, _), k in zip(fv, keep) if k]
 
 
-def check_sat(formulas, timeout_ms=30000, tactic=None, seed=0):
-    """('sat', model) | ('unsat', None) | ('unknown', reason)"""
-    t0 = time.time()
-    s = z3.Solver() if tactic is None else z3.Tactic(tactic).solver()
+def _run(s, formulas, timeout_ms, seed):
     s.set('timeout', int(timeout_ms))
     if seed:
-        s.set('random_seed', seed)
+        try:
+            s.set('random_seed', seed)
+        except z3.Z3Exception:
+            pass
     s.add(*formulas)
     r = s.check()
-    dt = time.time() - t0
-    STATS.time += dt
-    STATS.n[str(r)] += 1
     if r == z3.sat:
         return 'sat', s.model()
     if r == z3.unsat:
         return 'unsat', None
     return 'unknown', s.reason_unknown()
+
+
+PORTFOLIO = True
+_PREF = ['A', 'B']
+
+
+def check_sat(formulas, timeout_ms=30000, tactic=None, seed=0):
+    """('sat', model) | ('unsat', None) | ('unknown', reason).
+
+    Portfolio: (1) equation solving + the CDCL(T) core (`smt`), which is very fast on the
+    mostly-linear obligations with a few products, under a short budget; (2) z3's default
+    strategy (nlsat first for QF_NRA) under the full budget."""
+    t0 = time.time()
+    try:
+        if tactic is not None:
+            r, m = _run(z3.Tactic(tactic).solver(), formulas, timeout_ms, seed)
+        else:
+            r, m = 'unknown', 'not run'
+            if PORTFOLIO:
+                a, b = _PREF
+                plan = [(a, 1500), (b, 3000), (a, 8000), (b, timeout_ms)]
+            else:
+                plan = [('B', timeout_ms)]
+            spent = 0
+            for kind, budget in plan:
+                budget = min(budget, max(timeout_ms - spent, 500))
+                t1 = time.time()
+                if kind == 'A':
+                    sv = z3.Then('simplify', 'solve-eqs', 'elim-term-ite', 'solve-eqs', 'smt').solver()
+                else:
+                    sv = z3.Solver()
+                r, m = _run(sv, formulas, budget, seed)
+                spent += int((time.time() - t1) * 1000)
+                if r != 'unknown':
+                    if PORTFOLIO and kind != _PREF[0]:
+                        _PREF.reverse()      # adaptive: the strategy that just won goes first
+                    break
+                if spent >= timeout_ms:
+                    break
+    finally:
+        STATS.time += time.time() - t0
+    STATS.n[r] += 1
+    return r, m
 
 
 _CACHE = {}
@@ -282,4 +349,44 @@ def abstract_factors(formulas):
         return r
 
     out = [walk(z3.simplify(f), False) for f in formulas]
+    return out, len(table)
+
+
+def abstract_nonlinear(formulas):
+    """Replace every non-linear arithmetic subterm (product of two non-numerals, division by a
+    non-numeral, power) by a fresh real (same term, same variable).  The result is linear;
+    it has more models than the original, so `unsat` transfers.  Returns (formulas, count)."""
+    table = {}
+    memo = {}
+
+    def is_num(t):
+        return z3.is_rational_value(t) or z3.is_int_value(t)
+
+    def walk(t):
+        k = t.get_id()
+        if k in memo:
+            return memo[k][0]
+        r = t
+        if z3.is_app(t) and t.num_args() > 0:
+            kind = t.decl().kind()
+            nonlin = False
+            if kind == z3.Z3_OP_MUL:
+                nonlin = sum(1 for c in t.children() if not is_num(c)) >= 2
+            elif kind == z3.Z3_OP_DIV:
+                nonlin = not is_num(t.arg(1))
+            elif kind == z3.Z3_OP_POWER:
+                nonlin = True
+            if nonlin:
+                key = t.sexpr()
+                if key not in table:
+                    table[key] = z3.Real(f'nl!{len(table)}')
+                r = table[key]
+            else:
+                ch = [walk(c) for c in t.children()]
+                if any(not a.eq(b) for a, b in zip(ch, t.children())):
+                    r = t.decl()(*ch)
+        memo[k] = (r, t)
+        return r
+
+    out = [walk(z3.simplify(f)) for f in formulas]
     return out, len(table)
